@@ -20,7 +20,118 @@ from lib import common as C
 
 ID = "C08"
 PROP_MODULES = ["GPVerif.Props.C08"]
-BUILD_TARGETS = ["GPVerif.Props.C08", "GPVerif.Model.BatchOps"]
+BUILD_TARGETS = ["GPVerif.Props.C08", "GPVerif.Model.BatchOps", "GPVerif.Gen.BatchChoreo"]
+GEN = os.path.join(C.LEAN_DIR, "GPVerif", "Gen", "BatchChoreo.lean")
+_state = {}
+
+
+def generate(ctx):
+    """translator G3 (batch part): the shape-operation sequences of the source -> Gen/BatchChoreo.lean"""
+    sys.path.insert(0, os.path.join(C.VERIF, "harness"))
+    from translate import g3_batch_choreography
+    d, changed = g3_batch_choreography.generate(C.REPO, GEN)
+    _state["gen"] = d
+    ctx.notes["gen_changed"] = changed
+    ctx.notes["gen_choreographies"] = d
+
+
+# ------------------------------------------------------------------ torch interpreter of the generated op lists
+
+def _tok(text):
+    out, i = [], 0
+    while i < len(text):
+        c = text[i]
+        if c in "()[],":
+            out.append(c)
+            i += 1
+        elif c.isspace():
+            i += 1
+        else:
+            j = i
+            while j < len(text) and not text[j].isspace() and text[j] not in "()[],":
+                j += 1
+            out.append(text[i:j])
+            i = j
+    return out
+
+
+def _parse_term(toks, pos):
+    """term := '(' term+ ')' | '[' items ']' | atom ; returns (tree, next)"""
+    t = toks[pos]
+    if t == "(":
+        items, pos = [], pos + 1
+        while toks[pos] != ")":
+            x, pos = _parse_term(toks, pos)
+            items.append(x)
+        return items, pos + 1
+    if t == "[":
+        items, pos = [], pos + 1
+        while toks[pos] != "]":
+            if toks[pos] == ",":
+                pos += 1
+                continue
+            cur = []
+            while toks[pos] not in (",", "]"):
+                x, pos = _parse_term(toks, pos)
+                cur.append(x)
+            items.append(cur[0] if len(cur) == 1 else cur)
+        return ("list", items), pos + 1
+    return t, pos + 1
+
+
+def parse_ops(text):
+    tree, _ = _parse_term(_tok(text), 0)
+    assert tree[0] == "list"
+    return [op if isinstance(op, list) else [op] for op in tree[1]]
+
+
+def se_eval(se, cur, orig, args):
+    """symbolic shape (parsed) -> tuple, torch order"""
+    import torch
+    if isinstance(se, str):
+        se = [se]
+    h = se[0]
+    if h == ".self":
+        return tuple(cur)
+    if h == ".selfDrop":
+        return tuple(cur[:len(cur) - int(se[1])])
+    if h == ".orig":
+        return tuple(orig)
+    if h == ".origDrop":
+        return tuple(orig[:len(orig) - int(se[1])])
+    if h == ".arg":
+        return tuple(args[int(se[1])])
+    if h == ".lit":
+        return tuple(int(v) for v in se[1][1])
+    if h == ".cat":
+        return se_eval(se[1], cur, orig, args) + se_eval(se[2], cur, orig, args)
+    if h == ".bcast":
+        return tuple(torch.broadcast_shapes(se_eval(se[1], cur, orig, args), se_eval(se[2], cur, orig, args)))
+    raise ValueError(f"unknown shape expression {se}")
+
+
+def torch_run_ops(ops, t, args=(), nats=()):
+    """execute a generated op list with torch itself"""
+    orig = tuple(t.shape)
+    for op in ops:
+        h = op[0]
+        if h == ".unsqueeze":
+            t = t.unsqueeze(-(int(op[1]) + 1))
+        elif h == ".unsqueezeAt":
+            t = t.unsqueeze(int(op[1]))
+        elif h == ".view":
+            t = t.contiguous().view(*se_eval(op[1], t.shape, orig, args))
+        elif h == ".expand":
+            t = t.expand(*se_eval(op[1], t.shape, orig, args))
+        elif h == ".viewKeep":
+            t = t.contiguous().view(*t.shape[:nats[int(op[1])]], -1)
+        elif h == ".sumLast":
+            t = t.sum(dim=-1)
+        elif h == ".sumFrom":
+            t = t.sum(dim=tuple(range(nats[int(op[1])], t.ndim)))
+        else:
+            raise ValueError(f"unknown op {op}")
+    return t
 RULE = ("batch shapes: all of rank 0..2 with sizes in {1,2,3} (13 shapes) on parameters x data independently, every "
         "broadcastable pair (quick: a covering subset per module family in which every shape occurs on both sides and "
         "every rank pair occurs; thorough: all pairs); values sampled from the seed; distinct = (family, parameter "
@@ -142,47 +253,87 @@ def part_a(ctx, lines, recs):
         if len(s):
             for reps in itertools.product((1, 2), repeat=len(s)):
                 rec(f"repeat {shp(s)} | {shp(reps)}", T(ar(s).repeat(*reps)))
-        for k in range(len(s) + 1):
-            a = ar(s)
-            v = a.view(*s[:len(s) - k], -1).sum(-1)
-            rec(f"sumlast {shp(s)} | {k}", {"shape": list(v.shape), "flat": v.reshape(-1).tolist(), "inner": v.reshape(-1).tolist()})
-    # the choreographies, as the source writes them, on index tensors
+    # the GENERATED choreographies (Gen/BatchChoreo.lean): torch executes the generated op lists on index tensors, the
+    # Lean driver interprets the same lists
+    gen = _state.get("gen")
+    if gen is None:
+        ctx.count("a_lines", len(lines))
+        return
+    G = {k: parse_ops(v) for k, v in gen.items() if k.endswith("Ops") and k != "sumMllOps"}
+
+    def pairs_of(data, param):
+        A, B = torch.broadcast_tensors(data, param)
+        return {"shape": list(A.shape), "a": A.reshape(-1).tolist(), "b": B.reshape(-1).tolist()}
+
+    def attempt(line, fn):
+        try:
+            want = fn()
+        except Exception:
+            want = None          # torch rejects the generated sequence on these shapes
+        rec(line, want)
     for kb in S:
         for ob in S:
             bs = bcast(kb, ob)
             if bs is None:
                 continue
             n, m, d = 2, 3, 2
-            # ScaleKernel.forward:  outputscales.view(*outputscales.shape, 1, 1); orig_output.mul(outputscales)
             K, os_ = ar(kb + (n, m)), ar(ob)
-            A, B = torch.broadcast_tensors(K, os_.view(*os_.shape, 1, 1))
-            rec(f"scale {shp(kb + (n, m))} | {shp(ob)}", {"shape": list(A.shape), "a": A.reshape(-1).tolist(), "b": B.reshape(-1).tolist()})
-            # diag: outputscales.unsqueeze(-1)
+            attempt(f"scale {shp(kb + (n, m))} | {shp(ob)}", lambda: pairs_of(K, torch_run_ops(G["scaleFullOps"], os_)))
             Kd = ar(kb + (n,))
-            A, B = torch.broadcast_tensors(Kd, os_.unsqueeze(-1))
-            rec(f"scalediag {shp(kb + (n,))} | {shp(ob)}", {"shape": list(A.shape), "a": A.reshape(-1).tolist(), "b": B.reshape(-1).tolist()})
-            # x.div(lengthscale): ARD (.., 1, d) and shared (.., 1, 1)
+            attempt(f"scalediag {shp(kb + (n,))} | {shp(ob)}", lambda: pairs_of(Kd, torch_run_ops(G["scaleDiagOps"], os_)))
             for ld in (d, 1):
                 x, ls = ar(kb + (n, d)), ar(ob + (1, ld))
-                A, B = torch.broadcast_tensors(x, ls)
-                rec(f"lsdiv {shp(kb + (n, d))} | {shp(ob + (1, ld))}", {"shape": list(A.shape), "a": A.reshape(-1).tolist(), "b": B.reshape(-1).tolist()})
+                attempt(f"lsdiv {shp(kb + (n, d))} | {shp(ob + (1, ld))}", lambda: pairs_of(x, torch_run_ops(G["lengthscaleDivOps"], ls)))
+            # RQKernel: dist_mat (*kb, n, m) / (*kb, n) against alpha (*ob, 1); the count as generated
+            alpha = ar(ob + (1,))
+            for dg, dist in ((0, ar(kb + (n, m))), (1, ar(kb + (n,)))):
+                cnt = rq_count(gen["rqUnsqueezeCount"], bool(dg), False, dist.dim(), len(ob))
+                attempt(f"rq {shp(tuple(dist.shape))} | {shp(ob + (1,))} | {dg}",
+                        lambda: pairs_of(dist, torch_run_ops([[".unsqueeze", "0"]] * cnt, alpha)))
             # _HomoskedasticNoiseBase.forward (num_tasks = 1) on an index tensor; structural zeros = -1
             noise = ar(kb + (1,))
-            batch_shape = torch.broadcast_shapes(kb, ob)
-            nd = noise.unsqueeze(-2).expand(*batch_shape, 1, 1).contiguous().view(*batch_shape, 1)
-            dense = torch.full((*batch_shape, n, n), -1, dtype=torch.long)
-            for i in range(n):
-                dense[..., i, i] = nd[..., 0]
-            rec(f"noise {shp(kb + (1,))} | {shp(ob)} | {n}", {"shape": list(dense.shape), "flat": dense.reshape(-1).tolist()})
-            # ConstantMean.forward
+
+            def noise_dense():
+                nd = torch_run_ops(G["homoNoiseOps"], noise, args=[ob])
+                dense = torch.full((*nd.shape[:-1], n, n), -1, dtype=torch.long)
+                for i in range(n):
+                    dense[..., i, i] = nd[..., 0]
+                return {"shape": list(dense.shape), "flat": dense.reshape(-1).tolist()}
+            attempt(f"noise {shp(kb + (1,))} | {shp(ob)} | {n}", noise_dense)
             c = ar(kb)
-            cc = c.unsqueeze(-1)
-            mean = cc.expand(torch.broadcast_shapes(cc.shape, ob + (n,)))
-            rec(f"mean {shp(kb)} | {shp(ob + (n,))}", T(mean))
-            # _expand_inputs
+            attempt(f"mean {shp(kb)} | {shp(ob + (n,))}", lambda: T(torch_run_ops(G["constantMeanOps"], c, args=[ob + (n,)])))
             x = ar(kb + (n, d))
             rec(f"expandin {shp(kb + (n, d))} | {shp(bs)}", T(x.expand(*bs, n, d)))
+    # prior reductions as generated (exact and approximate MLL), every split of every shape
+    for s_ in S3:
+        for k in range(len(s_) + 1):
+            a = ar(s_)
+
+            def red():
+                v = torch_run_ops(G["exactPriorOps"], a, nats=[len(s_) - k])
+                v2 = torch_run_ops(G["approxPriorOps"], a, nats=[len(s_) - k])
+                inner = a.reshape(*s_[:len(s_) - k], -1).sum(-1)
+                return {"shape": list(v.shape), "flat": v.reshape(-1).tolist(), "approx": v2.reshape(-1).tolist(),
+                        "inner": inner.reshape(-1).tolist()}
+            attempt(f"sumlast {shp(s_)} | {k}", red)
     ctx.count("a_lines", len(lines))
+
+
+def rq_count(expr, diag, ldb, dist_rank, kb_rank):
+    """evaluate the generated Lean Nat expression `rqUnsqueezeCount` (natural-number subtraction truncates)"""
+    import re
+    py = re.sub(r"\(if (\w+) then ([^()]+?) else ([^()]+?)\)", r"(\2 if \1 else \3)", expr)
+    env = {"diag": diag, "ldb": ldb, "distRank": dist_rank, "kbRank": kb_rank}
+    # truncated subtraction: evaluate with a Nat wrapper
+    class N(int):
+        def __sub__(self, o):
+            return N(max(0, int(self) - int(o)))
+
+        def __add__(self, o):
+            return N(int(self) + int(o))
+    py = re.sub(r"\b(\d+)\b", r"N(\1)", py)
+    env.update({"N": N, "distRank": N(dist_rank), "kbRank": N(kb_rank)})
+    return int(eval(py, {"__builtins__": {}}, env))
 
 
 def parse_reply(rep):
@@ -314,7 +465,12 @@ def each_replica(ctx, fam, what, pb, db, tab, out, make_replica_out, replay):
         return
     flat = out.reshape(len(pidx), *out.shape[len(bs):])
     for e, (pf, df) in enumerate(zip(pidx, didx)):
-        want = make_replica_out(pf, df)
+        try:
+            want = make_replica_out(pf, df)
+        except Exception as ex:       # the NON-batched module itself fails: reported, the remaining cells still run
+            ctx.fail(f"{fam}:{what}:replica-raises", f"{fam} {what}: the non-batched replica (parameter slice {pf}, data slice "
+                     f"{df}) raises {type(ex).__name__}: {str(ex)[:160]}", dict(replay, element=e))
+            return
         if not close(flat[e], want):
             key = f"{fam}:{what}"
             if rank_deficient_prior_cell(fam, what, pb, bs):
@@ -390,9 +546,13 @@ def part_b_means(ctx, T, pairs):
             m = mk(pb).double()
             randomize(m, f"m:{fam}:{pb}")
             x = _randn(_gen(f"mx:{fam}:{pb}:{db}"), *db, n, D_IN)
-            with torch.no_grad():
-                out = m(x)
             rp = {"part": "mean", "family": fam, "param_batch": list(pb), "data_batch": list(db), "round": _SALT[0]}
+            try:
+                with torch.no_grad():
+                    out = m(x)
+            except Exception as e:
+                raised(ctx, "mean_" + fam, pb, db, tab[0], e, rp)
+                continue
             if fam == "zero" and tuple(out.shape) != tab[0] + (n,):
                 # ZeroMean ignores its batch_shape when shaping the output: the value (0) is right for every replica
                 try:
@@ -736,6 +896,10 @@ def part_b_model_list(ctx, lines, recs, only=None):
                          f"{type(e).__name__}: {str(e)[:160]}", rp)
                 got = None
             if got is not None:
+                # the GENERATED reduction (Gen.BatchChoreo.sumMllOps) on the members' values vs what the code returned
+                lines.append(f"summllt {shp(mb)} | " + " ; ".join(" ".join(C.rat_str(x) for x in v.reshape(-1).tolist())
+                                                                  for v in member_vals))
+                recs.append(("summllt", (k, mb, list(got.shape), got.reshape(-1).tolist()), rp))
                 if tuple(got.shape) != tuple(mb):
                     ctx.case(f"b|sum_mll|shape|{k}|{mb}")
                     ctx.fail("sum_mll:batch-shape", f"SumMarginalLogLikelihood over {k} members with batch shape {mb} returns "
@@ -771,6 +935,21 @@ def compare(ctx, lines, recs):
                 mism += 1
                 if mism <= 4:
                     ctx.broke("correspondence", "L1 tensor algebra vs torch", f"`{line}`\nmodel: {str(r)[:300]}\ntorch: {str(want)[:300]}")
+        elif kind == "summllt":
+            k, mb, gshape, gvals = data
+            ctx.case(f"a|summllt|{k}|{mb}", nontrivial=True)
+            ok = False
+            try:
+                sh_, _, vals_ = rep.partition(";vals=")
+                mshape = [] if sh_ == "shape=-" else [int(t) for t in sh_[len("shape="):].split(",")]
+                mvals = [float(C.parse_rat(t)) for t in vals_.split()]
+                ok = mshape == gshape and len(mvals) == len(gvals) and all(
+                    abs(a - b) <= 1e-12 * max(1.0, abs(b)) for a, b in zip(gvals, mvals))
+            except Exception:
+                ok = False
+            if not ok:
+                ctx.broke("correspondence", "generated SumMarginalLogLikelihood reduction vs the code",
+                          f"`{line[:120]}`: model {rep[:160]}; code shape {gshape} values {gvals[:4]}")
         elif kind == "summll":
             k, got, vals, mb, e_ = data
             ctx.case(f"b|sum_mll|{k}|{mb}|{e_}", nontrivial=k > 1)
@@ -810,18 +989,31 @@ def correspondence(ctx, want_driver=True):
                 ctx.broke("correspondence", "replicaTable vs torch.broadcast_tensors", f"{pb} {db}: {bs} {pidx} {didx}")
         for rnd in range(1 if ctx.quick else 4):
             _SALT[0] = rnd
-            part_b_kernels(ctx, T, sel["kernels"])
-            part_b_means(ctx, T, sel["means"])
-            part_b_likelihoods(ctx, T, sel["liks"])
-            part_b_exact(ctx, T, sel["exact"])
-            part_b_variational(ctx, T, sel["var"])
+            for part, key in ((part_b_kernels, "kernels"), (part_b_means, "means"), (part_b_likelihoods, "liks"),
+                              (part_b_exact, "exact"), (part_b_variational, "var")):
+                try:
+                    part(ctx, T, sel[key])
+                except Exception:      # one family crashing must not hide the others
+                    import traceback
+                    ctx.broke("correspondence", f"{part.__name__} crashed", traceback.format_exc())
         _SALT[0] = 0
         lines, recs = [], []
-        part_b_model_list(ctx, lines, recs)
-        part_a(ctx, lines, recs)
+        import traceback
+        try:
+            part_b_model_list(ctx, lines, recs)
+        except Exception:
+            ctx.broke("correspondence", "part_b_model_list crashed", traceback.format_exc())
+        try:
+            part_a(ctx, lines, recs)
+        except Exception:
+            ctx.broke("correspondence", "part_a crashed", traceback.format_exc())
         compare(ctx, lines, recs)
     finally:
         torch.set_default_dtype(torch.float32)
+        hist = {}
+        for f in ctx.failures:
+            hist[f["key"]] = hist.get(f["key"], 0) + 1
+        ctx.notes["failure_keys"] = hist
     hist = {}
     for f in ctx.failures:
         hist[f["key"]] = hist.get(f["key"], 0) + 1
